@@ -1,1 +1,108 @@
-(* C04 stub: to be written *)
+(* C04 — n-D and gridded shifts reproduce Bloch magnetization at any position.
+   Only statements, each closed by [exact], followed by Print Assumptions.
+   (Also the n-D clauses of C13 that concern the same functions: C13nd_*.) *)
+From Coq Require Import List ZArith QArith.
+From EPG Require Import Scalar QI State Ops Synth ShiftND ShiftNDProofs.
+Import ListNotations.
+
+(* (1) unique_1d as the code computes it (stable lexsort, mask, cumsum, scattered inverse): the inverse map
+   is correct, the unique rows are strictly sorted, duplicate-free and all come from the input *)
+Theorem C04_unique_inverse_spec (vals u : list key) (inv : list nat) :
+  unique_keys vals = (u, inv) ->
+  length inv = length vals /\
+  (forall i, (i < length vals)%nat ->
+     (nth i inv 0 < length u)%nat /\ nth (nth i inv 0%nat) u [] = nth i vals []) /\
+  key_ssorted u /\ NoDup u /\ (forall x, In x u -> In x vals).
+Proof. exact (unique_keys_spec vals u inv). Qed.
+Print Assumptions C04_unique_inverse_spec.
+
+(* (2) order-independent algebraic core, any wavenumber type G and any character chi *)
+Theorem C04_reloc_synth (S : ScalOps) (L : ScalLaws S) (G : Type) (geqb : G -> G -> bool)
+  (geqb_eq : forall a b, geqb a b = true -> a = b) (gadd : G -> G -> G) (chi : G -> S)
+  (chi_add : forall a b, chi (gadd a b) = kmul (chi a) (chi b)) (dk : G) (l : list (G * S)) :
+  synthL S G chi (accum S G geqb (map (fun r => (gadd (fst r) dk, snd r)) l)) = kmul (chi dk) (synthL S G chi l).
+Proof. exact (reloc_synth S L G geqb geqb_eq gadd chi chi_add dk l). Qed.
+Print Assumptions C04_reloc_synth.
+
+(* (3) THE CODE-SHAPED shiftnd (sort / unique / inverse map / scatter, no crop, no pruning), any dimension:
+   the synthesis at the position with dephasing factors zs is multiplied by chi(dk) for F+, unchanged for Z *)
+Theorem C04_shiftnd_synth (S : ScalOps) (L : ScalLaws S) (zs : list (S * S))
+  (rows : list (key * triple S)) (dk : key) :
+  List.Forall (fun p => kmul (fst p) (snd p) = k1) zs ->
+  (forall k, In k (map fst rows) -> length k = length dk) ->
+  NoDup (map fst rows) ->
+  synthP (chiZ S zs) (shiftnd1 rows dk) = kmul (chiZ S zs dk) (synthP (chiZ S zs) rows) /\
+  synthZ (chiZ S zs) (shiftnd1 rows dk) = synthZ (chiZ S zs) rows.
+Proof. exact (shiftnd_synth S L zs rows dk). Qed.
+Print Assumptions C04_shiftnd_synth.
+
+(* (3') the same for an arbitrary character on the keys present *)
+Theorem C04_shiftnd_synth_char (S : ScalOps) (L : ScalLaws S) (rows : list (key * triple S)) (dk : key)
+  (u : list key) (inv : list nat) (chi : key -> S) :
+  unique_keys (map fst rows ++ map (fun k => vadd k dk) (map fst rows) ++ map (fun k => vsub k dk) (map fst rows)) = (u, inv) ->
+  NoDup (map (fun k => vadd k dk) (map fst rows)) ->
+  (forall k, In k (map fst rows) -> chi (vadd k dk) = kmul (chi k) (chi dk)) ->
+  synthP chi (shiftnd1 rows dk) = kmul (chi dk) (synthP chi rows).
+Proof. exact (shiftnd1_synthP S L rows dk u inv). Qed.
+Print Assumptions C04_shiftnd_synth_char.
+
+(* (4) F- rebuilt as the mirror conjugate of F+ (array-level well-formedness of the F columns) *)
+Theorem C04_mirror_wf_partial (S : ScalOps) (rows : list (key * triple S)) (dk : key) (j : nat) :
+  let out := shiftnd1 rows dk in
+  (j < length out)%nat ->
+  fm (snd (nth j out ([], t0))) = kconj (fp (snd (nth (length out - 1 - j) out ([], t0)))).
+Proof. exact (mirror_wf_F S rows dk j). Qed.
+Print Assumptions C04_mirror_wf_partial.
+
+(* (5) shiftmerge / shiftprune accumulation: amplitudes falling in one cell are added exactly *)
+Theorem C04_merge_adds_exact (S : ScalOps) (L : ScalLaws S) (pre : Q -> Q) (rnd : Q -> Z)
+  (wav : list qvec) (dk grid : qvec) (amps : list (triple S)) :
+  length amps = length wav ->
+  ksum (map (@fp S) (merge_amps (merge_plan pre rnd wav dk grid) amps)) = ksum (map (@fp S) amps) /\
+  ksum (map (@fz S) (merge_amps (merge_plan pre rnd wav dk grid) amps)) = ksum (map (@fz S) amps).
+Proof. exact (merge_adds_exact S L pre rnd wav dk grid amps). Qed.
+Print Assumptions C04_merge_adds_exact.
+
+(* (6) gridded shift, PARTIAL: hypothesis on the computed cell wavenumbers instead of injectivity of the grid *)
+Theorem C04_shiftmerge_synth_partial (S : ScalOps) (L : ScalLaws S) (pre : Q -> Q) (rnd : Q -> Z)
+  (wav : list qvec) (dk grid : qvec) (chi : qvec -> S) (kout : nat -> qvec) (amps : list (triple S)) :
+  let p := merge_plan pre rnd wav dk grid in
+  length amps = length wav ->
+  (forall k, In k (mkL p) -> chi (qvadd k dk) = kmul (chi k) (chi dk)) ->
+  (forall i, (i < length wav)%nat -> fp (nth i amps t0) = k0 \/
+        chi (kout (nth i (m1T p) 0%nat)) = chi (qvadd (nth i (mkL p) []) dk)) ->
+  length (mkL p) = length wav ->
+  ksum (map (fun j => kmul (chi (kout j)) (fp (nth j (merge_amps p amps) t0))) (seq 0 (length (mq p)))) =
+  kmul (chi dk) (ksum (map (fun i => kmul (chi (nth i (mkL p) [])) (fp (nth i amps t0))) (seq 0 (length wav)))).
+Proof. exact (shiftmerge_synth_partial S L pre rnd wav dk grid chi kout amps). Qed.
+Print Assumptions C04_shiftmerge_synth_partial.
+
+(* (7) back-ends: 1-D integer model vs n-D model (1 and 3 columns), evaluated family *)
+Theorem C04_backends_agree_family :
+  forallb (ag_check 0) ag_family = true /\ forallb (ag_check 2) ag_family = true.
+Proof. exact backends_agree_family. Qed.
+Print Assumptions C04_backends_agree_family.
+
+Theorem C04_backend_switch (n kdim j : nat) : (j < 2 * n + 1)%nat ->
+  nth j (setup_coords n kdim) [] = (Z.of_nat j - Z.of_nat n)%Z :: repeat 0%Z (kdim - 1).
+Proof. exact (backend_switch n kdim j). Qed.
+Print Assumptions C04_backend_switch.
+
+(* (8) G and C *)
+Theorem C04_G_is_S_of_wavenumber (twopi tau : Q) (grad : qvec) :
+  G_shift twopi tau grad = map (fun g => (twopi * (42576 # 1) * tau * (1 # 1000) * g)%Q) grad.
+Proof. exact (G_is_S_of_wavenumber twopi tau grad). Qed.
+Print Assumptions C04_G_is_S_of_wavenumber.
+
+Theorem C04_C_puts_time_on_axis_4 (tau : Q) :
+  firstn 3 (C_shift tau) = [0%Q; 0%Q; 0%Q] /\ nth 3 (C_shift tau) 0%Q = tau.
+Proof. exact (C_puts_time_on_axis_4 tau). Qed.
+Print Assumptions C04_C_puts_time_on_axis_4.
+
+(* non-vacuity: a 2-D shift of a 3-row state over the Gaussian rationals *)
+Example C04_nonvacuous :
+  map fst (shiftnd1 [([-1; 0]%Z, mk3 (qi 1 2 0 1) (qi 0 1 0 1) (qi 0 1 1 2));
+                     ([0; 0]%Z, mk3 (qi 0 1 0 1) (qi 0 1 0 1) (qi 1 1 0 1));
+                     ([1; 0]%Z, mk3 (qi 0 1 0 1) (qi 1 2 0 1) (qi 0 1 (-1) 2))] [1; 1]%Z)
+  = [[-2; -1]; [-1; -1]; [-1; 0]; [0; -1]; [0; 0]; [0; 1]; [1; 0]; [1; 1]; [2; 1]]%Z.
+Proof. vm_compute. reflexivity. Qed.
